@@ -470,16 +470,13 @@ func c01Body(c *Ctx, m *Module) {
 		}
 	}
 	r.Check("C01.body", "createReport/writes the filtered bytes", m.Pos(cr.Pos()), uploadName != nil, "the marshalled upload report must be written with exclusiveWrite")
-	for _, b := range cr.Blocks {
-		ret, ok := b.Instrs[len(b.Instrs)-1].(*ssa.Return)
-		if !ok {
+	for _, ex := range exitPaths(cr) {
+		ret := ex.ret
+		if k, isC := constOf(ex.vals[0]); isC && k == "" {
 			continue
 		}
-		if k, isC := constOf(ret.Results[0]); isC && k == "" {
-			continue
-		}
-		r.Check("C01.body", "createReport/returns the filtered file", m.Pos(ret.Pos()), uploadName != nil && describe(ret.Results[0]) == describe(uploadName),
-			"the file name handed to the sender must be the file the filtered bytes were written to; returns "+describe(ret.Results[0]))
+		r.Check("C01.body", "createReport/returns the filtered file", m.Pos(ret.Pos()), uploadName != nil && describe(ex.vals[0]) == describe(uploadName),
+			"the file name handed to the sender must be the file the filtered bytes were written to; returns "+describe(ex.vals[0]))
 	}
 	r.Floor("C01.body", 3)
 }
